@@ -1,5 +1,8 @@
 use crate::engine::{run_property, Opts};
 
+pub mod adcommon;
+pub mod c01;
+pub mod c02;
 pub mod c04;
 pub mod c05;
 pub mod c06;
@@ -9,6 +12,8 @@ pub mod c08;
 /// Run the check of property `id`; None if no such check exists.
 pub fn dispatch(id: &str, opts: &Opts) -> Option<i32> {
     Some(match id {
+        "C01" => run_property(&c01::C01, opts),
+        "C02" => run_property(&c02::C02, opts),
         "C04" => run_property(&c04::C04, opts),
         "C05" => run_property(&c05::C05, opts),
         "C06" => run_property(&c06::C06, opts),
